@@ -71,10 +71,10 @@ theorem C03_own_reply_full_false : ¬ C03_own_reply_Statement := by
 
 /-! ### how often the method runs -/
 
-/-- Full statement: a call that returns has run its method exactly once. -/
+/-- Full statement: a call (of a method the object has) that returns has run its method exactly once. -/
 def C03_exec_once_Statement : Prop :=
   ∀ (W : World), Reachable W → ∀ (retries : Nat) (k : Kind) (tok : Nat) (s : List Ev) (k' : Kind) (t' : Nat),
-    (call real retries k tok W s).1 = .returned k' t' →
+    k.executes = true → (call real retries k tok W s).1 = .returned k' t' →
     execs tok (call real retries k tok W s).2.1 = execs tok W + 1
 
 /-- **C03_exec_once (partial).**  When the call makes a single attempt — retries disabled, or a call that
@@ -82,15 +82,16 @@ def C03_exec_once_Statement : Prop :=
     method ran exactly once; if it fails, at most once.  No hypothesis on the state or the script. -/
 theorem C03_exec_once_partial (W : World) (retries : Nat) (k : Kind) (tok : Nat) (s : List Ev)
     (ha : attempts retries k = 1) :
-    (∀ k' t', (call real retries k tok W s).1 = .returned k' t' →
+    (k.executes = true → ∀ k' t', (call real retries k tok W s).1 = .returned k' t' →
         execs tok (call real retries k tok W s).2.1 = execs tok W + 1) ∧
-    execs tok (call real retries k tok W s).2.1 ≤ execs tok W + 1 := by
+    execs tok (call real retries k tok W s).2.1 ≤ execs tok W + 1 ∧
+    (k.executes = false → execs tok (call real retries k tok W s).2.1 = execs tok W) := by
   have f := call_facts retries k tok W s
   rw [ha] at f
-  obtain ⟨m, hm, hlog, _, hret, _⟩ := f.log
+  obtain ⟨m, hm, hlog, _, hret, _, hne⟩ := f.log
   have e := execs_replicate tok m W _ hlog
-  refine ⟨fun k' t' h => ?_, by omega⟩
-  have := hret k' t' h
+  refine ⟨fun he k' t' h => ?_, by omega, fun he => by have := hne he; omega⟩
+  have := hret he k' t' h
   omega
 
 /-- **Finding K1 (negation of the full statement).**  MAX_RETRIES = 1, one normal call: handshake
@@ -98,7 +99,7 @@ theorem C03_exec_once_partial (W : World) (retries : Nat) (k : Kind) (tok : Nat)
     re-sends: the call returns its own result after the method ran twice (documented at-least-once). -/
 theorem C03_exec_once_full_false : ¬ C03_exec_once_Statement := by
   intro h
-  have := h (init 0) (.init 0) 1 .normal 1 [.ok, .lost, .ok, .ok] .normal 1 (by decide)
+  have := h (init 0) (.init 0) 1 .normal 1 [.ok, .lost, .ok, .ok] .normal 1 (by decide) (by decide)
   exact absurd this (by decide)
 
 /-- **C03_exec_bound.**  Whatever happens, the server log grows by `n` copies of this call's token with
@@ -114,20 +115,21 @@ theorem C03_exec_bound (W : World) (retries : Nat) (k : Kind) (tok : Nat) (s : L
 
 /-- **C03_oneway.**  A oneway call (oneway method or oneway batch), with any number of retries: never
     returns a value; takes no message off the stream (`reads` unchanged); if it returns (None) its method
-    ran exactly once; if it fails its request was never delivered and the method did not run; in no case
+    (if the object has it) ran exactly once; if it fails its request was never delivered and the method did not run; in no case
     does it run twice. -/
 theorem C03_oneway (W : World) (retries : Nat) (k : Kind) (tok : Nat) (s : List Ev) (hk : k.isOneway = true) :
     (∀ k' t', (call real retries k tok W s).1 ≠ .returned k' t') ∧
     (call real retries k tok W s).2.1.reads = W.reads ∧
-    ((call real retries k tok W s).1 = .none_ → execs tok (call real retries k tok W s).2.1 = execs tok W + 1) ∧
+    ((call real retries k tok W s).1 = .none_ → k.executes = true →
+        execs tok (call real retries k tok W s).2.1 = execs tok W + 1) ∧
     (∀ e, (call real retries k tok W s).1 = .failed e → execs tok (call real retries k tok W s).2.1 = execs tok W) ∧
     execs tok (call real retries k tok W s).2.1 ≤ execs tok W + 1 := by
   have f := call_facts retries k tok W s
-  obtain ⟨m, _, hlog, hnone, _, how⟩ := f.log
+  obtain ⟨m, _, hlog, hnone, _, how, _⟩ := f.log
   have e := execs_replicate tok m W _ hlog
   have h1 := how hk
-  refine ⟨f.onewayOut hk, f.reads hk, fun h => ?_, fun e' h => ?_, by omega⟩
-  · have := hnone h; omega
+  refine ⟨f.onewayOut hk, f.reads hk, fun h he => ?_, fun e' h => ?_, by omega⟩
+  · have := hnone he h; omega
   · have := h1.2 e' h; omega
 
 /-- **C03_recovers.**  After a call failed (any communication error or interrupt) the proxy holds no
@@ -142,13 +144,42 @@ theorem C03_recovers (W : World) (retries : Nat) (k : Kind) (tok : Nat) (s : Lis
     W1.pc.isLive = false ∧
     (call real retries2 k2 tok2 W1 (.ok :: .ok :: s2)).1 = ownOutcome k2 tok2 ∧
     (call real retries2 k2 tok2 W1 (.ok :: .ok :: s2)).2.2 = s2 ∧
-    execs tok2 (call real retries2 k2 tok2 W1 (.ok :: .ok :: s2)).2.1 = execs tok2 W1 + 1 ∧
+    (call real retries2 k2 tok2 W1 (.ok :: .ok :: s2)).2.1.log = logAfter k2 tok2 W1.log ∧
     (call real retries2 k2 tok2 W1 (.ok :: .ok :: s2)).2.1.pc = .live ⟨[], false⟩ := by
   intro W1
   have hrel := (call_facts retries k tok W s).released e h
   have hh := call_healthy retries2 k2 tok2 W1 s2 hrel hk2
-  refine ⟨hrel, hh.1, hh.2.1, ?_, hh.2.2.2⟩
-  unfold execs; rw [hh.2.2.1]; simp
+  exact ⟨hrel, hh.1, hh.2.1, hh.2.2.1, hh.2.2.2⟩
+
+/-- a history of calls over a transport that delivers every message (each call is given two `ok` events) -/
+def runHealthy (retries : Nat) : List (Kind × Nat) → World → List Outcome
+  | [], _ => []
+  | (k, t) :: rest, W =>
+    (call real retries k t W [.ok, .ok]).1 :: runHealthy retries rest (call real retries k t W [.ok, .ok]).2.1
+
+/-- no connection, or a live one with nothing unread that was not reset -/
+def Clean (W : World) : Prop := W.pc.isLive = false ∨ W.pc = .live ⟨[], false⟩
+
+/-- **C03_fault_free.**  Over a transport that delivers everything, starting without a connection or with a clean
+    one, EVERY call of a history (any kinds other than a stream fetch, any retries, also calls of methods the object
+    no longer has, oneway or not) returns its own outcome: no communication error arises without a fault, in
+    particular a oneway call — whether or not its method exists — leaves nothing behind for the next call. -/
+theorem C03_fault_free (retries : Nat) (calls : List (Kind × Nat)) :
+    ∀ W, Clean W → (∀ c ∈ calls, c.1.precheck = false) →
+      runHealthy retries calls W = calls.map (fun c => ownOutcome c.1 c.2) := by
+  induction calls with
+  | nil => intro W _ _; rfl
+  | cons c rest ih =>
+    intro W hW hk
+    obtain ⟨k, t⟩ := c
+    have hk1 : k.precheck = false := hk (k, t) (List.mem_cons_self ..)
+    have hrest : ∀ c ∈ rest, c.1.precheck = false := fun c hc => hk c (List.mem_cons_of_mem _ hc)
+    simp only [runHealthy, List.map_cons]
+    rcases hW with hW | hW
+    · have h := call_healthy retries k t W [] hW hk1
+      rw [h.1, ih _ (Or.inr h.2.2.2) hrest]
+    · have h := call_healthy_live retries k t W [.ok] hW
+      rw [h.1, ih _ (Or.inr h.2.2.2) hrest]
 
 /-- **C03_wrap.**  The statement holds across the 16-bit wrap: from a state with sequence number 65535,
     a call that returns still returns its own reply (replayed replies from before the wrap are rejected),
@@ -330,6 +361,9 @@ example :
     (call real 1 .normal 3 W2 [.ok, .ok, .ok]).1 = .failed .protocol := by decide
 -- a failed call followed by a healthy one (hypotheses of C03_recovers)
 example : (call real 0 .getattr 1 (init 0) [.ok, .cut]).1 = .failed .connClosed := by decide
+-- a fault-free history with calls of methods the object no longer has: every call gets its own outcome
+example : runHealthy 1 [(.normal, 1), (.onewayMissing, 2), (.normal, 3), (.missing, 4), (.oneway, 5), (.getattr, 6)] (init 0)
+    = [.returned .normal 1, .none_, .returned .normal 3, .returned .missing 4, .none_, .returned .getattr 6] := by decide
 example : attempts 0 .normal = 1 ∧ attempts 5 .batch = 1 ∧ attempts 2 .normal = 3 := by decide
 
 end Pyro.C03
